@@ -578,6 +578,13 @@ class SNum:
         if o is None or isinstance(o, (str, tuple, list)):
             return NotImplemented
         try:
+            fo = float(o) if not isinstance(o, (SNum, SBool)) and not z3.is_expr(o) else None
+        except (TypeError, ValueError):
+            fo = None
+        if fo is not None and fo in (float("inf"), float("-inf")):
+            pos = fo > 0          # every finite real lies strictly between -inf and +inf
+            return SBool(z3.BoolVal({"lt": pos, "le": pos, "gt": not pos, "ge": not pos, "eq": False, "ne": True}[op]))
+        try:
             o = lift(o)
         except (Undecided, TypeError):
             return NotImplemented
@@ -627,6 +634,15 @@ class SNum:
 
     def __repr__(self):
         return "S%s(%s)" % (self.kind, z3.simplify(self.t))
+
+    def __getitem__(self, key):
+        """numpy scalars accept x[None], x[...], x[()] ; a symbolic scalar standing for one behaves the same"""
+        import numpy as _np
+        if key is None:
+            return _np.array([self], dtype=object)
+        if key is Ellipsis or key == ():
+            return self
+        raise IndexError("invalid index to scalar variable")
 
     def __format__(self, spec):
         """text I/O model: a formatted symbolic number is the token <<term|format-spec>> (one whitespace-free word)"""
